@@ -25,6 +25,60 @@ Example C03_nonvacuous :
 Proof. vm_compute. split; reflexivity. Qed.
 
 (* ------------------------------------------------------------------------------------------
+   Tie to the source: the message-state methods of client.py this property rests on are translated from
+   the Python AST on every run (tools/py2v/msgstate.py -> Gen/GenMsgState.v) and proved equal to the
+   functions of the hand model (Session/MsgStateBridge.v).  A semantic change to one of these methods
+   changes the generated text and the corresponding theorem below stops compiling. *)
+From PahoV Require Import Base.Prelude Codec.Mid Session.Model Session.Lemmas Session.Inv
+  Session.MsgStateLib Gen.GenMsgState Session.MsgStateBridge.
+From PahoV Require Import Props.MsgStateTie.
+
+Theorem C03_tie_summaries :
+  gen_summaries_ok = true.
+Proof. exact tie_summaries. Qed.
+Print Assumptions C03_tie_summaries.
+
+Theorem C03_tie_store_writers :
+  gen_store_writers = store_writers_expected.
+Proof. exact tie_store_writers. Qed.
+Print Assumptions C03_tie_store_writers.
+
+Theorem C03_tie_reset_in :
+  forall clean il,
+  Forall iq2 il -> gen_reset_in clean il = ((if clean then [] else il), Ok tt).
+Proof. exact tie_reset_in. Qed.
+Print Assumptions C03_tie_reset_in.
+
+Theorem C03_tie_handle_publish :
+  forall c s q mid tag raises il tagof,
+  sock s = true -> inm s = inm_of il -> Forall iq2 il -> 0 <= q <= 2 ->
+  let '(i, calls, r) := gen_handle_publish_tail (c_manual c) (c_suppress c) raises
+                          (mkI (if q =? 0 then 0 else mid) q tag) il [] in
+  (r = Ok MQTT_ERR_SUCCESS \/ r = Raise 0) /\ Forall iq2 i /\
+  do_rx c s (IPublish q mid tag) raises =
+    (with_inm s (inm_of i), Inp (IPublish q mid tag) :: evs (conn s) tagof calls ++ raised_ev r).
+Proof. exact tie_handle_publish. Qed.
+Print Assumptions C03_tie_handle_publish.
+
+Theorem C03_tie_handle_pubrel :
+  forall c s mid raises il tagof,
+  sock s = true -> inm s = inm_of il -> Forall iq2 il ->
+  let '(i, calls, r) := gen_handle_pubrel (c_manual c) (c_suppress c) raises mid il [] in
+  (r = Ok MQTT_ERR_SUCCESS \/ r = Raise 0) /\ Forall iq2 i /\
+  do_rx c s (IPubrel mid) raises =
+    (with_inm s (inm_of i), Inp (IPubrel mid) :: evs (conn s) tagof calls ++ raised_ev r).
+Proof. exact tie_handle_pubrel. Qed.
+Print Assumptions C03_tie_handle_pubrel.
+
+Theorem C03_tie_ack :
+  forall c s mid q tagof,
+  sock s = true ->
+  let '(calls, r) := gen_ack (c_manual c) mid q [] in
+  r = Ok MQTT_ERR_SUCCESS /\ do_ack c s mid q = (s, evs (conn s) tagof calls).
+Proof. exact tie_ack. Qed.
+Print Assumptions C03_tie_ack.
+
+(* ------------------------------------------------------------------------------------------
    The same property on the second-generation session model (coq/theories/Session2): the client's
    output queue and a transport that may refuse writes are modelled; events distinguish a packet
    HANDED to the connection from a packet WRITTEN; reconnect() drops what is still queued. *)
